@@ -259,6 +259,7 @@ static void run_c06(long cases) {
 }
 
 // ------------------------------------------------------------------ C07
+static std::atomic<int> g_stream_handler_done{0};
 struct BigHandler : public Http::Handler {
     HTTP_PROTOTYPE(BigHandler)
     void onRequest(const Http::Request& req, Http::ResponseWriter response) override {
@@ -272,7 +273,19 @@ struct BigHandler : public Http::Handler {
             // further writes queued behind the blocked one
             for (int k = 0; k < extra; k++) peer->send(RawBuffer(tagged(w + 1 + (unsigned)k, 1000), 1000));
             std::lock_guard<std::mutex> g(g_m); g_peers[peer_port(peer)].fd = peer->fd();
-        } else response.send(Http::Code::Ok, "pong:" + req.resource());
+        } else if (req.resource() == "/bigstream") {
+            // streamed response flushed chunk by chunk: every flush attempts the socket at once, also when it is already full
+            size_t n = (size_t)atol(req.query().get("n").value_or("1000").c_str());
+            unsigned w = (unsigned)atol(req.query().get("w").value_or("1").c_str());
+            { lv::Interpose& I = lv::ip(); std::lock_guard<std::mutex> g(I.m); I.fds[response.peer()->fd()]; }
+            { std::lock_guard<std::mutex> g(g_m); g_peers[peer_port(response.peer())].fd = response.peer()->fd(); }
+            std::string all = tagged(w, n);
+            auto stream = response.stream(Http::Code::Ok);
+            for (size_t pos = 0; pos < n; pos += 65536) { size_t k = std::min<size_t>(65536, n - pos); stream.write(all.data() + pos, (std::streamsize)k); stream << Http::flush; }
+            stream << Http::ends;
+            g_stream_handler_done++;
+        } else if (req.resource() == "/slow") { lv::msleep(atoi(req.query().get("ms").value_or("500").c_str())); response.send(Http::Code::Ok, "pong:/slow"); }
+        else response.send(Http::Code::Ok, "pong:" + req.resource());
     }
 };
 static void run_c07(long cases) {
@@ -289,6 +302,7 @@ static void run_c07(long cases) {
         int extra = r.range(0, 3);
         int nOthers = r.range(1, 3);
         int when = r.range(0, 2);   // other connections issue their request: 0 during the block, 1 before and during, 2 during, repeatedly
+        int variant = (int)(n % 3);  // 0 fixed response, 1 streamed response flushed per chunk, 2 fixed response + second request from the blocked peer while the worker is busy
         double stall = 0.2 + r.below(10) * 0.1;
         std::string wt = Json().num("i", idx).str("phase", "c07").num("big_bytes", (long long)big).num("extra_writes", extra).num("others", nOthers).num("when", when).num("stall_s_x10", (long long)(stall * 10)).done();
         set_case(idx, wt);
@@ -306,11 +320,14 @@ static void run_c07(long cases) {
         };
         if (when == 1) for (auto& o : others) if (!ping(*o, "/before", 5 * lf, nullptr)) key = "c07:harness:other-connection-not-served-before-block";
         // A requests the big response and does not read
-        a.send_all("GET /big?n=" + std::to_string(big) + "&w=77&extra=" + std::to_string(extra) + " HTTP/1.1\r\nHost: x\r\n\r\n");
+        if (variant == 1) { big = std::min<size_t>(big, 12u << 20); extra = 0; a.send_all("GET /bigstream?n=" + std::to_string(big) + "&w=77 HTTP/1.1\r\nHost: x\r\n\r\n"); }
+        else a.send_all("GET /big?n=" + std::to_string(big) + "&w=77&extra=" + std::to_string(extra) + " HTTP/1.1\r\nHost: x\r\n\r\n");
         int sfd = -1;
         wait_for([&] { std::lock_guard<std::mutex> g(g_m); auto it = g_peers.find(a.localPort); if (it == g_peers.end() || it->second.fd < 0) return false; sfd = it->second.fd; return true; }, 5 * lf);
         // wait until the kernel refuses more data (first would-block on A), bounded
         wait_for([&] { lv::Interpose& I = lv::ip(); std::lock_guard<std::mutex> g(I.m); auto it = I.fds.find(sfd); return it != I.fds.end() && it->second.eagain > 0; }, 3 * lf);
+        // a streaming handler attempts the socket once per flush: count attempts only once it has returned
+        if (variant == 1) { int d0 = 0; wait_for([&] { return g_stream_handler_done.load() > d0; }, 10 * lf); g_stream_handler_done = 0; }
         long eagainBefore, callsBefore; { lv::Interpose& I = lv::ip(); std::lock_guard<std::mutex> g(I.m); eagainBefore = I.fds[sfd].eagain; callsBefore = I.fds[sfd].calls; }
         double t0 = lv::now();
         // while A is blocked the others must be answered
@@ -323,6 +340,15 @@ static void run_c07(long cases) {
         g_counts["max_write_attempts_while_blocked"] = std::max(g_counts["max_write_attempts_while_blocked"], attempts);
         // correct code: at most one attempt per writable edge; A never drains, so no more than a handful
         if (key.empty() && attempts > 50) { key = "c07:busy-wait-on-blocked-peer"; wt = Json().num("i", idx).str("phase", "c07").num("write_attempts_while_blocked", attempts).num("would_block_results", eagainAfter - eagainBefore).num("stall_ms", (long long)(stall * 1000)).done(); }
+        std::thread slowThread;
+        if (key.empty() && variant == 2) {
+            // the stall ends (A starts reading) and A's next request arrives while the worker is away from its event loop:
+            // both readiness changes reach the worker in ONE event
+            lv::Conn* o = others[0].get();
+            slowThread = std::thread([o] { std::string b; o->send_all("GET /slow?ms=700 HTTP/1.1\r\nHost: x\r\n\r\n"); lv::read_response(*o, b, 0, 8000); });
+            lv::msleep(150);
+            a.send_all("GET /second HTTP/1.1\r\nHost: x\r\n\r\n");
+        }
         // release: A reads everything
         if (key.empty()) {
             std::string buf; lv::HttpMsg m;
@@ -330,6 +356,11 @@ static void run_c07(long cases) {
             for (;;) { m = lv::parse_http(buf, 0, true); if (m.complete || !m.error.empty() || lv::now() > deadline) break; bool eof = false; if (!a.read_some(buf, 200, 1 << 30, &eof)) break; }
             if (!m.complete) key = "c07:blocked-peer-not-completed-after-release";
             else if (m.body != tagged(77, big)) key = "c07:blocked-peer-body-corrupt";
+            else if (variant == 2) {
+                size_t off = m.consumed + (size_t)extra * 1000; double d2 = lv::now() + 10 * lf; lv::HttpMsg m2;
+                for (;;) { m2 = buf.size() >= off ? lv::parse_http(buf, off, true) : lv::HttpMsg(); if (m2.complete || !m2.error.empty() || lv::now() > d2) break; a.read_some(buf, 100); }
+                if (!m2.complete || m2.body != "pong:/second") key = "c07:request-sent-during-the-stall-never-answered";
+            }
             else if (extra) {
                 size_t want = m.consumed + (size_t)extra * 1000; double d2 = lv::now() + 5 * lf;
                 while (buf.size() < want && lv::now() < d2) a.read_some(buf, 100);
@@ -337,9 +368,10 @@ static void run_c07(long cases) {
                 if (tail != exp) key = "c07:writes-queued-behind-blocked-one-lost-or-reordered";
             }
         }
+        if (slowThread.joinable()) slowThread.join();
         g_evals++;
-        if (!key.empty()) violation(key, key.substr(4) + " (worst latency of other connections " + std::to_string(worst) + " s)", wt);
-        g_distinct.add(std::to_string(big >> 20) + "|" + std::to_string(extra) + "|" + std::to_string(nOthers) + "|" + std::to_string(when) + "|" + std::to_string((int)(stall * 10)));
+        if (!key.empty()) violation(key, key.substr(4) + " [variant " + std::to_string(variant) + "] (worst latency of other connections " + std::to_string(worst) + " s)", wt);
+        g_distinct.add(std::to_string(variant) + "|" + std::to_string(big >> 20) + "|" + std::to_string(extra) + "|" + std::to_string(nOthers) + "|" + std::to_string(when) + "|" + std::to_string((int)(stall * 10)));
         count("scenarios");
         g_counts["worst_other_latency_ms"] = std::max<long>(g_counts["worst_other_latency_ms"], (long)(worst * 1000));
         if (g_samples_left > 0) { g_samples_left--; sample(Json().num("big_bytes", (long long)big).num("others", nOthers).num("write_attempts_while_blocked", attempts).num("worst_other_latency_ms", (long long)(worst * 1000)).done()); }
